@@ -19,6 +19,35 @@ def units(tier):
     return [{"name": n, "timeout": 2400} for n in ("dqn", "dqn_stateful", "sac", "sac_wild", "clock")]
 
 
+_ENVCLS = {}
+
+
+def _mk_env(B):
+    """FiniteMDP, or a subclass whose reward adds B[state reached] (B closed over as a constant table)."""
+    from vlib.mdp import FiniteMDP
+
+    if B is None:
+        return FiniteMDP
+    import jax.numpy as jnp
+
+    if "cls" not in _ENVCLS:
+        import jax
+
+        class BonusMDP(FiniteMDP):
+            bonus: jax.Array
+
+            def __init__(self, bonus, *a, **k):
+                super().__init__(*a, **k)
+                self.bonus = jnp.asarray(bonus, jnp.float32)
+
+            def reward(self, state, action, next_state, *, key):
+                return self._r(state, action) + self.bonus[next_state.s]
+
+        _ENVCLS["cls"] = BonusMDP
+
+    return lambda *a, **k: _ENVCLS["cls"](B, *a, **k)
+
+
 def _build(ctx, i, kind, never_ends=False):
     from lerax.wrapper import TimeLimit
     from vlib.mdp import FiniteMDP, RefMDP, random_tables
@@ -40,9 +69,13 @@ def _build(ctx, i, kind, never_ends=False):
         tl = L
     low, high = (-1.0, 1.0) if i % 2 == 0 else (-0.5, 2.0)
     kw = dict(trunc=tabs["trunc"], kind=kind, low=low, high=high)
-    env = FiniteMDP(tabs["P"], tabs["R"], tabs["term"], tabs["starts"], obs_kind="onehot_t",
-                    box_dim=int(rng.integers(1, 3)), **kw)
+    # half of the environments pay a bonus that depends on the state *reached* (the pre-reset successor): a reward
+    # computed against anything else, e.g. the state the collector restarts from, is then visible
+    B = np.round(rng.normal(0, 1, size=len(tabs["term"])), 3).astype(np.float32) if i % 2 == 1 else None
+    env = _mk_env(B)(tabs["P"], tabs["R"], tabs["term"], tabs["starts"], obs_kind="onehot_t",
+                     box_dim=int(rng.integers(1, 3)), **kw)
     ref = RefMDP(tabs["P"], tabs["R"], tabs["term"], tabs["starts"], time_limit=tl, **kw)
+    ref.bonus = B
     if tl is not None:
         env = TimeLimit(env, tl)
     return env, ref, tl
@@ -98,11 +131,19 @@ def _judge(ctx, tag, ref, tl, buf, env_state, pol_state_n, expected_position, ca
             n_oob += 1
             ctx.monitor("chosen_actions_outside_bounds")
         ns, r, term, trunc = ref.step(s, t, a_exec)
+        if getattr(ref, "bonus", None) is not None:
+            r = r + float(ref.bonus[ns])
+            ctx.monitor("rewards_with_a_successor_dependent_term_checked")
+            if term or trunc:
+                ctx.monitor("episode_end_rewards_with_a_successor_dependent_term_checked")
         tol = 2e-5 + 1e-4 * abs(r)
         got_r = float(buf["rewards"][idx])
         if abs(got_r - r) > tol:
-            if ref.kind == "box" and abs(got_r - ref.reward(s, a)) <= tol:
+            if ref.kind == "box" and abs(got_r - ref.reward(s, a) - (float(ref.bonus[ns]) if getattr(ref, "bonus", None) is not None else 0.0)) <= tol:
                 bad("reward-computed-with-unclipped-action", {"got": got_r, "want": r, "action": a})
+            elif getattr(ref, "bonus", None) is not None and (term or trunc) and any(
+                    abs(got_r - (r - float(ref.bonus[ns]) + float(ref.bonus[s0]))) <= tol for s0 in ref.starts):
+                bad("reward-computed-against-the-state-after-the-reset", {"got": got_r, "want": r, "successor": ns, "starts": ref.starts})
             else:
                 bad("stored-reward-mismatch", {"got": got_r, "want": r, "action": a})
         s2, t2 = _dec(buf["next_obs"][idx], nS)
@@ -128,7 +169,8 @@ def _judge(ctx, tag, ref, tl, buf, env_state, pol_state_n, expected_position, ca
             ctx.monitor("stored_actions_compared_with_the_policys_choice")
             got_a = np.asarray(a, np.float64).reshape(want_a.shape)
             # (compiled and eager evaluation of the plan may differ in the last bits: fused multiply-add)
-            if not np.all(np.abs(got_a - want_a) <= 1e-5 * (1 + np.abs(want_a))):
+            # float32 sine of an argument that grows with the step counter: its rounding error grows with n too
+            if not np.all(np.abs(got_a - want_a) <= 2e-4 + 2e-6 * int(buf["states"][idx])):
                 d = {"stored": a, "chosen": want_a, "stored_equals_clipped_choice": bool(np.array_equal(np.asarray(a, np.float32).reshape(want_a.shape), ref.clip(want_a)))}
                 bad("stored-action-not-the-one-the-policy-chose", d)
         elif ref.kind == "box" and info.get("policy") == "WildSACPolicy":
@@ -279,3 +321,5 @@ def run_unit(name, ctx):
         _run(ctx, "SAC", "WildSACPolicy", ctx.n(3, 12), never_ends=True)
         ctx.require("clock_checks", 4)
     ctx.require("streams_judged", 4)
+    if name != "clock":
+        ctx.require("episode_end_rewards_with_a_successor_dependent_term_checked", 5)
